@@ -24,7 +24,7 @@ RULE = ('integrations {aiohttp, flask, werkzeug} through their own test clients 
         'charset parameter, upper / mixed case, spaces around, trailing ";", near misses application/jsonx, application/json-rpc2, '
         'application/foo+json, application/x-json, text/plain, the empty string, header missing) x bodies (call, call answered with an '
         'error, call raising, unknown method, calls whose parameters do not bind, notification, batches (mixed with a notification, all succeeding, all failing, succeeding and failing mixed), all-notification batch, invalid request, non-JSON text, a BOM-prefixed call / notification, non-UTF-8 '
-        'bytes) x status-by-error functions (default, a code table, a table answering 207 when nothing failed, one answering 200 / 207 / 400 for none / some / all calls failed, one depending on the number of answered calls) x endpoints (main, an added endpoint with its own methods). The '
+        'bytes) x status-by-error functions (default, a code table, a table answering 207 when nothing failed, one answering 200 / 207 / 400 for none / some / all calls failed, one depending on the number of answered calls, one looking the whole tuple up in a dict) x endpoints (main, an added endpoint with its own methods). The '
         'dispatcher verdict for each body is obtained independently from a plain Dispatcher with the same methods. distinct = distinct '
         '(integration, header, body, status function, endpoint); non-trivial = the media type is a documented one')
 EXHAUSTIVE = {'quick': False, 'thorough': True}
@@ -61,7 +61,10 @@ STATUS = {'default': None, 'table': ([(-32601, 404), (7, 422), (-32700, 409)], 5
           # a function that does not answer 200 when nothing failed (a gateway reporting 207 / 202)
           'table207': ([(-32601, 404), (7, 422)], 500, 207),
           # functions that look at the successes too and at the number of answered calls
-          'mixed': ('mixed', 400, 207, 200), 'count': ('count', 200)}
+          'mixed': ('mixed', 400, 207, 200), 'count': ('count', 200),
+          # a lookup keyed by the tuple itself (the parameter is documented as Tuple[int, ...]: hashable, equal to a tuple)
+          'exact': ('exact', [((0,), 201), ((7,), 422), ((-32601,), 404), ((0, 7), 207), ((0, 0), 202), ((-32000, 7, -32601), 502),
+                              ((-32602, 0, -32601), 207), ((-32602,), 400)], 418)}
 
 
 def status_fn(kind):
@@ -72,6 +75,9 @@ def status_fn(kind):
         return lambda codes: allok if all(c == 0 for c in codes) else partial if any(c == 0 for c in codes) else allfail
     if STATUS[kind][0] == 'count':
         return lambda codes: STATUS[kind][1] + len(codes)
+    if STATUS[kind][0] == 'exact':
+        table = dict(STATUS[kind][1])
+        return lambda codes: table.get(codes, STATUS[kind][2]) if codes != list(codes) else 599
     table, other, allok = STATUS[kind]
 
     def f(codes):
@@ -214,6 +220,8 @@ def encode(case, obs):
         sfn = '(SMixed %s %s %s)' % tuple(cZ(x) for x in STATUS[case['status']][1:])
     elif STATUS[case['status']][0] == 'count':
         sfn = '(SCount %s)' % cZ(STATUS[case['status']][1])
+    elif STATUS[case['status']][0] == 'exact':
+        sfn = '(SExact %s %s)' % (clist('(%s, %s)' % (clist(cZ(c) for c in k), cZ(v)) for k, v in STATUS[case['status']][1]), cZ(STATUS[case['status']][2]))
     else:
         table, other, allok = STATUS[case['status']]
         sfn = '(SFirstError %s %s %s)' % (clist('(%s, %s)' % (cZ(a), cZ(b)) for a, b in table), cZ(other), cZ(allok))
